@@ -108,7 +108,7 @@ type c18Task struct {
 }
 
 func TestVerif_C18_UnwrapOnce(t *testing.T) {
-	rec := verifx.NewRecorder("C18", "unwrap-once", "a wrapped response (echo / leased secret / login / kv read / list) is created, then 2-4 concurrent attempts from {unwrap with the token as client token, unwrap with the token in the body under another token, rewrap, lookup, revoke by accessor, cubbyhole/response read, use on an ordinary path} run under a generated storage-step schedule (or sequentially, optionally after the wrap TTL lapsed); oracle: requester's response has wrap info only; payload deliveries over the whole chain (rewrapped tokens are redeemed afterwards) <= 1, and == 1 when every attempt was a redeeming one and none failed for another reason; afterwards token, accessor and cubbyhole entry are gone; lookup reports creation path and TTL; non-trivial = >=2 redeeming attempts (unwrap/rewrap/cubby-read) overlapping in the schedule, or a TTL lapse")
+	rec := verifx.NewRecorder("C18", "unwrap-once", "a wrapped response (echo / leased secret / login / kv read / list) is created, then 2-4 concurrent attempts from {unwrap with the token as client token, unwrap with the token in the body under another token, rewrap, lookup, revoke by accessor, cubbyhole/response read, use on an ordinary path} run under a generated storage-step schedule (or sequentially, optionally after the wrap TTL lapsed, optionally with a restart of the server between two attempts); oracle: requester's response has wrap info only; payload deliveries over the whole chain (rewrapped tokens are redeemed afterwards) <= 1, and == 1 when every attempt was a redeeming one and none failed for another reason; afterwards token, accessor and cubbyhole entry are gone; lookup reports creation path and TTL; non-trivial = >=2 redeeming attempts (unwrap/rewrap/cubby-read) overlapping in the schedule, or a TTL lapse")
 	defer rec.Flush()
 	envs := map[bool]*c18Env{}
 	defer func() {
@@ -117,6 +117,7 @@ func TestVerif_C18_UnwrapOnce(t *testing.T) {
 		}
 	}()
 	rapid.Check(t, func(rt *rapid.T) {
+		defer recoverWedged(rec)
 		txn := rapid.Bool().Draw(rt, "transactionalStorage")
 		if envs[txn] == nil || envs[txn].n >= 30 {
 			if envs[txn] != nil {
@@ -239,7 +240,23 @@ func TestVerif_C18_UnwrapOnce(t *testing.T) {
 				time.Sleep(2500 * time.Millisecond)
 				lapsed = true
 			}
-			for _, tk := range tasks {
+			// in sequential histories the server may be restarted between the attempts: the single right to the payload
+			// and its loss are durable
+			restartAt := -1
+			if mode >= 1 && fairIndex(rt, "restartBetweenAttempts", 3) == 0 {
+				restartAt = fairIndex(rt, "restartBeforeAttempt", len(tasks))
+			}
+			for i, tk := range tasks {
+				if i == restartAt {
+					tc.waitExpirationIdle(2 * time.Second)
+					tc.shutdown()
+					ntc, err := tc.restartOn(tc.phys)
+					if err != nil {
+						t.Fatalf("harness: restart: %v", err)
+					}
+					e.tc, tc = ntc, ntc
+					rec.Class("restart-between-attempts", 1)
+				}
 				attempt(tk, wi.Token)
 			}
 		} else {
